@@ -97,6 +97,7 @@ def run_seed(m, seed, tier):
         return {"status": "invalid", "detail": str(e), "seed": seed}
     case["seed"] = seed
     case["hashseed"] = os.environ.get("PYTHONHASHSEED")
+    case = json.loads(json.dumps(case, default=_default))  # a case is plain JSON, always
     res = exec_case(m, case)
     res["seed"] = seed
     return res
